@@ -43,6 +43,11 @@ def run_C18(chk):
         if D > 1:   # every remainder class near the epoch for small D, sampled for large
             for c in (range(-3 * D, 3 * D + 1) if D <= 1000 else [rng.randrange(-3 * D, 3 * D + 1) for _ in range(4000)]):
                 lines.append('split %d %d %d %s' % (N, D, c, rep)); meta.append(('split', N, D, c))
+    # the public templates (lookup / convert / format of a time_point<D>) must use the same floor
+    for (N, D, rep, lo, hi) in PANEL:
+        for _ in range(per // 10):
+            c = pick_count(rng, lo, hi, D)
+            lines.append('subapi %d %d %d %s' % (N, D, c, rep)); meta.append(('subapi', N, D, c))
     for (Num, rep, lo, hi) in JOIN_COARSE:
         for _ in range(per // 2):
             r = rng.random()
@@ -79,6 +84,24 @@ def run_C18(chk):
             if out != want:
                 chk.report('split_seconds of %d ticks of %d/%d s = `%s`; floor semantics give `%s` (second, remainder ticks, femtoseconds)' % (c, N, D, out, want),
                            {'op': lines[i], 'implementation': out, 'model': mo[i], 'specification': want}, sig='split ' + canon(out)[:6])
+            else: nontriv.add(lines[i])
+        elif m[0] == 'subapi':
+            _, N, D, c = m
+            x = Fraction(c * N, D)
+            sec = x.numerator // x.denominator
+            if not (I64MIN + 1 <= sec <= I64MAX): continue
+            fs = (x - sec) * 10**15
+            fs = fs.numerator // fs.denominator
+            from . import civil as CV
+            cs = CV.civil_of_sec(sec)
+            frac = ('%015d' % fs).rstrip('0')
+            ys = ('-' if cs[0] < 0 else '') + str(abs(cs[0]))
+            txt = '%s-%02d-%02d %02d:%02d:%02d%s' % (ys, cs[1], cs[2], cs[3], cs[4], cs[5], ('.' + frac) if frac else '')
+            want = 'S %s | %s | %s' % (CV.fmt(cs), CV.fmt(cs), txt.encode().hex())
+            chk.count('subapi')
+            if out != want:
+                chk.report('lookup/convert/format of a time_point of %d ticks of %d/%d s give `%s`; the whole second at or below the instant and the truncated fraction give `%s`' % (c, N, D, out, want),
+                           {'op': lines[i], 'implementation': out, 'model': mo[i], 'specification': want}, sig='subapi')
             else: nontriv.add(lines[i])
         elif m[0] == 'joinc':
             _, Num, lo, hi, sec = m
